@@ -63,10 +63,10 @@ LabelsDefined  == {"L1"}
 BinOps == {"*", "/", "%", "+", "-", "<<", ">>", "<", ">", "<=", ">=", "==", "!=", "&", "^", "|", "&&", "||"}
 AsgOps == {"=", "*=", "%=", "+=", "-=", "<<=", "&="}
 UnOps  == {"neg", "pos", "bnot", "lnot", "deref", "addr", "preinc", "postinc", "predec", "sizeof"}
-OpBin  == {"gi", "gd", "gp", "gq", "gv", "gs", "gfp", "k0", "gip", "gcp", "gld"}
-OpUn   == {"gi", "gc", "gvol", "gd", "gld", "gp", "gv", "gfp", "gs", "ga", "gf", "gsbf", "gsm", "k1", "ks", "lr", "li", "gb", "gsp", "gq"}
-OpLhs  == {"gi", "gc", "gvol", "gd", "gld", "gp", "gq", "gv", "gcp", "gs", "ga", "gf", "k1", "gsbf", "gb", "li", "gfp"}
-OpRhs  == {"gi", "gd", "gp", "gq", "gv", "gcp", "gs", "gt", "k0", "k1", "gf", "gld"}
+OpBin  == {"gi", "gd", "gp", "gq", "gv", "gs", "gfp", "k0", "gip", "gcp", "gld", "kpi", "kpc", "kv", "knil"}
+OpUn   == {"gi", "gc", "gvol", "gd", "gld", "gp", "gv", "gfp", "gs", "ga", "gf", "gsbf", "gsm", "k1", "ks", "lr", "li", "gb", "gsp", "gq", "gcbf"}
+OpLhs  == {"gi", "gc", "gvol", "gd", "gld", "gp", "gq", "gv", "gcp", "gs", "ga", "gf", "k1", "gsbf", "gb", "li", "gfp", "gcbf"}
+OpRhs  == {"gi", "gd", "gp", "gq", "gv", "gcp", "gs", "gt", "k0", "k1", "gf", "gld", "kv", "kpi"}
 OpArg  == {"gi", "gd", "gp", "gq", "gs", "gt", "k0"}
 SInitTypes == {"int", "double", "bool", "ptr_int", "ptr_char", "ptr_void", "ptr_cint", "struct_S"}
 CastTypes  == {"int", "double", "ptr_int", "void", "struct_S", "bool"}
@@ -91,13 +91,14 @@ UseFrags  == {FUse(n) : n \in {"gi", "li", "nope", "ek"}}
 BinFrags  == {FBin(o, l, r) : o \in BinOps, l \in OpBin, r \in OpBin}
 UnFrags   == {FUn(o, a) : o \in UnOps, a \in OpUn}
 AsgFrags  == {FAsg(o, l, r) : o \in AsgOps, l \in OpLhs, r \in OpRhs}
-CallFrags == {FCall(c, as) : c \in {"gf", "gvf", "gpf", "gsfn", "gfp", "gi", "gp", "gs"},
-                             as \in {<<>>} \cup {<<a>> : a \in OpArg} \cup {<<a, x>> : a \in {"gi", "gp"}, x \in {"gi", "gd"}}}
+CallFrags == {FCall(c, as) : c \in {"gf", "gvf", "gpf", "gsfn", "gvar", "gfp", "gi", "gp", "gs"},
+                             as \in {<<>>} \cup {<<a>> : a \in OpArg} \cup {<<a, x>> : a \in {"gi", "gp"}, x \in {"gi", "gd"}}
+                                   \cup {<<"gi", "gi", x>> : x \in {"gd", "gp", "gs"}}}
 MemFrags  == {FMem(o, a, m) : o \in {".", "->"}, a \in {"gs", "gt", "gu", "gsp", "gi", "gp", "gd"}, m \in {"m", "q", "zz"}}
 IdxFrags  == {FIdx(a, i) : a \in {"gp", "ga", "gq", "gi", "gv", "gip", "gs", "gd", "gfp"}, i \in {"gi", "k1", "gd", "gp", "gs", "ga"}}
 CastFrags == {FCast(t, a) : t \in CastTypes, a \in {"gi", "gd", "gp", "gs", "gv", "gf", "k0", "gld"}}
-CondFrags == {FCond(c, a, x) : c \in {"gi", "gp", "gs", "gd"}, a \in {"gi", "gd", "gp", "gq", "gv", "gs", "gt", "k0"},
-                               x \in {"gi", "gd", "gp", "gq", "gv", "gs", "gt", "k0"}}
+CondFrags == {FCond(c, a, x) : c \in {"gi", "gp", "gs", "gd"}, a \in {"gi", "gd", "gp", "gq", "gv", "gs", "gt", "k0", "kpi", "kpc", "kv", "knil", "gfp"},
+                               x \in {"gi", "gd", "gp", "gq", "gv", "gs", "gt", "k0", "kpi", "kpc", "kv", "knil", "gfp"}}
 SizeofTFrags == {FSizeofT(o, t) : o \in {"sizeof", "_Alignof"}, t \in {"int", "struct_S", "void", "struct_I", "fn_ii", "arr_unk", "ptr_inc", "arr_int", "named_abstract"}}
 SInitFrags == {FSInit(t, o) : t \in SInitTypes, o \in OpRhs \cup {"kd", "ks", "ga"}}
 LitKinds == {"ok_int", "ok_hex", "ok_ull", "ok_float", "ok_char", "ok_esc", "ok_str", "ok_strcat", "ok_wide",
@@ -211,15 +212,20 @@ EnumFrags == {FEnum(it) : it \in {
    <<En("ZA", "gi")>>, <<En("ZA", "1.5")>>, <<En("ZA", "3"), En("ZB", "gi")>>,
    <<En("ZA", "max_u64"), En("ZB", "")>>, <<En("ZA", "max_i64"), En("ZB", "")>>, <<En("ZA", "-1"), En("ZB", "max_u64")>>}}
   \cup {[FEnum(<<En("ZA", "")>>) EXCEPT !.ub = "nope"], [FEnum(<<En("ZA", "256")>>) EXCEPT !.ub = "unsigned char"]}
+(* an expression over constant operands as the initializer of an int object: `int zv = (E);` *)
+ConstOps == {"k0", "k1", "kpi", "kpc", "kv", "knil"}
+FCInit(e) == [form |-> "cinit", of |-> e]
+CInitFrags == {FCInit(FBin(o, l, r)) : o \in {"==", "!="}, l \in ConstOps, r \in ConstOps} \cup
+              {FCInit(FCond(c, a, x)) : c \in {"k1"}, a \in ConstOps, x \in ConstOps}
 MiscFrags == {FMisc(k) : k \in {"toplevel_semi", "nested_fn", "missing_semi", "unbalanced_paren", "kw_as_ident", "asm_label", "attr_ok",
    "typedef_asm", "attr_after_paren", "attr_aligned_bad", "attr_aligned_unsup", "vla_static", "vla_init", "vla2_init", "vla_ok",
    "scalar_double_brace", "init_missing_comma", "nullptr_assign", "const_fold_overflow_s", "const_fold_overflow_u",
    "static_init_addr_local", "static_init_addr_compound", "static_init_addr_index", "static_init_addr_ok", "eof_comment_decl"}}
 DeclFrags == SpecFrags \cup ScFrags \cup ObjFrags \cup BfFrags \cup AlignasFrags \cup ArrFrags \cup SaFrags \cup InitFrags
              \cup StrInitFrags \cup StructFrags \cup ParamFrags \cup FdeclFrags \cup RedeclFrags \cup TagFrags \cup EnumFrags
-             \cup MiscFrags \cup SInitFrags
+             \cup MiscFrags \cup SInitFrags \cup CInitFrags
 DeclForms == {"spec", "sc", "obj", "bf", "alignas", "arr", "sa", "init", "strinit", "struct", "param", "fdecl", "redecl",
-              "tag", "enum", "misc", "sinit"}
+              "tag", "enum", "misc", "sinit", "cinit"}
 
 (* ---- directive fragments -------------------------------------------------------------- *)
 (* d: directive name; for define: redef (relation to the existing macro MF / a macro       *)
